@@ -362,7 +362,7 @@ void run_sweep(Judge& j, int nworkloads, bool pairs, const std::vector<int>& nex
 }
 
 // ------------------------------------------------------------------------------------------------ idle-point sweep (terminal actions)
-void run_idle_sweep(Judge& j, uint64_t nbase, int max_idle, const std::vector<int>& term_kinds, int max_handler = 0, const std::vector<int>& handler_kinds = {}) {
+void run_idle_sweep(Judge& j, uint64_t nbase, int max_idle, const std::vector<int>& term_kinds, int max_handler = 0, const std::vector<int>& handler_kinds = {}, int max_timer = 0) {
     const FamilyCtx& ctx = j.ctx;
     uint64_t idx = 0;
     Knobs k; k.pubs_max = 6; k.suffix = 12 * SEC; k.span = 1 * SEC; k.faults_max = 1; k.bad_attempts_max = 1; k.big_payload_pct = 0;
@@ -374,20 +374,23 @@ void run_idle_sweep(Judge& j, uint64_t nbase, int max_idle, const std::vector<in
         if (rng.chance(1, 4)) base.net.shutdown_hangs = true;
         if (rng.chance(1, 5)) { base.attempts.clear(); AttemptPlan a; a.tcp = AttemptPlan::tcp_hang; base.attempts.push_back(a); base.default_attempt = a; }
         // number of idle points / handler boundaries of the undisturbed run
-        uint64_t nidle, nhand;
-        { auto ex = execute(base); nidle = ex->run.out.idle_points; nhand = ex->run.out.handler_boundaries; }
+        uint64_t nidle, nhand; std::vector<vt> tinst;
+        { auto ex = execute(base); nidle = ex->run.out.idle_points; nhand = ex->run.out.handler_boundaries; tinst = ex->run.out.timer_instants; }
         int limit = (int)std::min<uint64_t>(nidle, max_idle);
         int hlimit = (int)std::min<uint64_t>(nhand, max_handler);
-        // placements: (false, idle point) and (true, handler boundary)
-        for (int pass = 0; pass < 2; ++pass) {
-            int lim = pass == 0 ? limit : hlimit;
+        int tlimit = (int)std::min<uint64_t>(tinst.size(), max_timer);
+        // placements: (0, idle point), (1, handler boundary) and (2, the instant a library timer is due: the action runs from a
+        // posted handler that is dequeued after the reactor has queued the timer's completion and before that completion runs)
+        for (int pass = 0; pass < 3; ++pass) {
+            int lim = pass == 0 ? limit : pass == 1 ? hlimit : tlimit;
             const std::vector<int>& kinds = pass == 0 ? term_kinds : handler_kinds;
             for (int ip = 1; ip <= lim; ++ip)
                 for (int tk : kinds) {
+                    if (pass == 2 && tk > 2 && tk != 4 && tk != 5) continue;
                     if (int(idx++ % ctx.nshards) != ctx.shard) continue;
-                    Scenario sc = base; sc.family = pass == 0 ? "idle-sweep" : "handler-sweep"; sc.index = bi * 1000000 + ip * 10 + tk + (pass ? 500000 : 0);
+                    Scenario sc = base; sc.family = pass == 0 ? "idle-sweep" : pass == 1 ? "handler-sweep" : "timer-sweep"; sc.index = bi * 1000000 + ip * 10 + tk + (pass ? 500000 : 0) + (pass == 2 ? 200000 : 0);
                     Action a;
-                    if (pass == 0) a.idle_index = ip; else a.handler_index = ip;
+                    if (pass == 0) a.idle_index = ip; else if (pass == 1) a.handler_index = ip; else { a.at = tinst[ip - 1]; a.in_handler = true; }
                     auto later = [&](Action x, int offset) { if (pass == 0) x.idle_index = ip + offset; else { x.handler_index = -1; x.idle_index = -1; x.at = -1; } return x; };
                     std::vector<Action> extra;   // pushed after `a`
                     switch (tk) {
@@ -440,7 +443,7 @@ void run_idle_sweep(Judge& j, uint64_t nbase, int max_idle, const std::vector<in
                     auto ex = execute(sc);
                     j.judge(sc, *ex);
                     j.res.count("terminal_placements");
-                    j.res.count(pass == 0 ? "idle_point_placements" : "handler_boundary_placements");
+                    j.res.count(pass == 0 ? "idle_point_placements" : pass == 1 ? "handler_boundary_placements" : "timer_instant_placements");
                     j.res.count("terminal_kind_" + std::to_string(tk));
                 }
         }
@@ -1170,7 +1173,7 @@ int run_families(const FamilyCtx& ctx, vu::Result& res) {
         Knobs k = knobs_for("c04-mix");
         run_mix(j, k, "c04-mix", T ? 150000 : 3000);
     } else if (P == "C05") {
-        run_idle_sweep(j, T ? 40 : 4, T ? 200 : 90, {0, 1, 2, 3, 4, 5, 6, 7, 8}, T ? 400 : 150, {0, 1, 2, 6});
+        run_idle_sweep(j, T ? 40 : 4, T ? 200 : 90, {0, 1, 2, 3, 4, 5, 6, 7, 8}, T ? 400 : 150, {0, 1, 2, 6}, T ? 300 : 80);
         run_closed_client(j, T ? 20000 : 600);
         Knobs k = knobs_for("c05-mix");
         run_mix(j, k, "c05-mix", T ? 50000 : 1000);
@@ -1186,7 +1189,7 @@ int run_families(const FamilyCtx& ctx, vu::Result& res) {
         run_mix(j, k, "c08-mix", T ? 100000 : 2000);
         run_exhaustion(j);
     } else if (P == "C09") {
-        run_idle_sweep(j, T ? 60 : 8, T ? 200 : 90, {1, 5, 9}, T ? 400 : 120, {1, 5, 9});
+        run_idle_sweep(j, T ? 60 : 8, T ? 200 : 90, {1, 5, 9}, T ? 400 : 120, {1, 5, 9}, T ? 200 : 40);
     } else if (P == "C10") {
         run_c10(j, T ? 150000 : 3000);
     } else if (P == "C11") {
